@@ -5,6 +5,8 @@
                        findings live (early return of merge; dimension check of get_estimate; integer type of the level weight in
                        get_estimate).  They are model parameters so that the model follows the code before and after the proposed fixes
                        (the theorems are proved for both values; Props/C20.lean selects by these constants)
+* density_COMPACT_POPS_EMPTY_TOP   compact() drops empty levels from the top after compact_level (repair of the C09 finding
+                       `density/trailing-empty-level-not-restored`); pinned shape: never shrinks; any third shape is a translation failure
 * wire constants (preamble sizes, family id, serial version): used only to read the level sizes out of a serialized image in the harness
   (pinned by C10, not by this property)
 Everything else the model transcribes (loop guard, level selection, is_empty, dimension checks) is algorithmic and is tied by the
@@ -59,4 +61,14 @@ def generate(repo, T):
         extra.append("def density_EST_WEIGHT_64 : Bool := false")
     else:
         T.fail("density: get_estimate no longer weights a level by `1 << height` / `1ULL << height`")
+    cb = body("compact")
+    pops = re.findall(r"while\s*\(\s*levels_\.size\(\)\s*>\s*1\s*&&\s*levels_\.back\(\)\.empty\(\)\s*\)\s*levels_\.pop_back\(\)\s*;", cb)
+    shrink = re.findall(r"pop_back|erase|resize|clear\s*\(", cb)
+    if len(pops) == 1 and len(shrink) == 1 and re.search(r"compact_level\(height\);\s*while", cb):
+        extra.append("def density_COMPACT_POPS_EMPTY_TOP : Bool := true")
+    elif not shrink:
+        extra.append("def density_COMPACT_POPS_EMPTY_TOP : Bool := false")
+    else:
+        T.fail("density: compact() shrinks the level vector in a shape that is neither the pinned one (never) nor "
+               "`compact_level(height); while (levels_.size() > 1 && levels_.back().empty()) levels_.pop_back();`: %r" % shrink)
     return {"Density.lean": base.replace("\nend DSGen", "\n".join(extra) + "\n\nend DSGen")}
